@@ -16,7 +16,7 @@ Not decided: the invariant over histories as such, replica contents.
 """
 from ..inline import inline_view
 from ..mir import AnchorLost
-from ..util import df_of, fn_short, in_set, operand_path, path_last, backward_slice, field_writers, _rv_locals, uses_of_local, switch_on, switch_edges
+from ..util import closure_family, df_of, fn_short, in_set, operand_path, path_last, backward_slice, field_writers, _rv_locals, uses_of_local, switch_on, switch_edges
 from .c20 import slice_fields
 
 T = "scylla::routing::locator::tablets::"
@@ -433,6 +433,85 @@ def r6(ctx, facts):
                "both arguments of add_tablet derive from the element just taken", add.span)
 
 
+# how update_stale_nodes may get from a replica list to the element it overwrites: plain traversal only (an adapter that
+# selects - find / nth / take / skip / first / last / get_mut / position - refreshes some replicas and leaves others stale)
+TRAVERSAL = {"next", "into_iter", "iter_mut", "values_mut", "deref_mut", "as_mut_slice", "as_mut", "for_each", "by_ref"}
+
+
+def _is_traversal(name):
+    return name.split("::")[0] in ("core", "std", "alloc", "hashbrown") and name.split("::")[-1] in TRAVERSAL
+
+
+def _fields_of(body, locs):
+    out = set()
+
+    def scan(x):
+        if isinstance(x, list):
+            if len(x) >= 3 and x[0] == "f" and isinstance(x[2], str):
+                out.add(x[2])
+            for y in x:
+                scan(y)
+    for l in locs:
+        for d in body.defs.get(l, []):
+            if d[0] in ("stmt", "part"):
+                scan(d[3] if d[0] == "stmt" else d[4])
+            elif d[0] == "call":
+                scan(d[2].args[:1])
+    return out
+
+
+def r7(ctx, facts):
+    r = ctx.rule("R7", "the replica refresh visits every replica of the full list and of every per-DC list", floor=3)
+    b = facts.one(r"^%sTablet::update_stale_nodes$" % T)
+    fam = closure_family(facts, b)
+
+    def origin(body, operand):
+        """(fields reached, call names used, Iterator::next seen) on the way from a replica list to `operand`"""
+        locs, calls, _ = backward_slice(body, operand, data_only=True, pointer_only=True)
+        names = {(x.decl or x.name or "?") for x in calls}
+        flds = _fields_of(body, locs)
+        if body is not b and 2 in locs:
+            # the element is the closure's parameter: the closure is handed to for_each on a traversal built by the creator
+            for bb, c in b.calls():
+                if bb in b.live_blocks and (c.decl or "").endswith("Iterator::for_each") and len(c.args) > 1:
+                    cl, _, _ = backward_slice(b, c.args[1])
+                    if any(st[0] == "A" and st[1][0] in cl and st[2][0] == "agg" and st[2][1][0] == "closure" and st[2][1][1] == body.path
+                           for x in b.live_blocks for st in b.stmts(x)):
+                        f2, n2 = origin(b, c.args[0])
+                        return flds | f2, names | n2 | {"core::iter::traits::iterator::Iterator::next", c.decl}
+        return flds, names
+    stores = []
+    for body in fam:
+        for bb, c in body.calls():
+            if bb not in body.live_blocks or (c.decl or "") != "core::clone::Clone::clone":
+                continue
+            sti = c.callee.get("self_ty")
+            if sti is None or "Arc<" not in body.ty(sti) or "Node" not in body.ty(sti):
+                continue
+            if c.dest[1] and c.dest[1][0] == "*":
+                stores.append((body, bb, c.dest, c.span))
+            for ub, where, _op in uses_of_local(body, c.dest[0]):
+                st = where[1] if where[0] == "stmt" else None
+                if st is not None and st[0] == "A" and st[1][1] and st[1][1][0] == "*" and st[2][0] == "use":
+                    stores.append((body, ub, st[1], body.stmt_span(st)))
+    if not stores:
+        raise AnchorLost("update_stale_nodes: no `*node = Arc::clone(..)` store found")
+    seen_lists = set()
+    for body, bb, dest, span in stores:
+        flds, names = origin(body, ["m", [dest[0], []]])
+        bad = sorted(n for n in names if not _is_traversal(n))
+        which = "per_dc" if "per_dc" in flds else "all" if "all" in flds else None
+        in_loop = body is not b or any(bb in body.reachable_from(x) for x in body.succ[bb])
+        has_next = any(n.endswith("Iterator::next") for n in names)
+        r.instance("refresh-traverses:%s" % (which or "?"), which is not None and not bad and has_next and in_loop,
+                   "the replica overwritten by update_stale_nodes must be reached by plain traversal (iter_mut / values_mut / next, in a loop) of replicas.%s; "
+                   "it is reached through %s%s" % (which or "all|per_dc", sorted(n.split("::")[-1] for n in names), "" if in_loop else " and not in a loop"), span)
+        if which:
+            seen_lists.add(which)
+    r.instance("both-lists-refreshed", seen_lists == {"all", "per_dc"},
+               "update_stale_nodes must overwrite stale nodes in replicas.all and in replicas.per_dc; found stores into %s" % sorted(seen_lists), b.span)
+
+
 def check(ctx):
     facts = inline_view(ctx.facts("default"))
     add = None
@@ -440,7 +519,7 @@ def check(ctx):
         add = r1(ctx, facts)
     except AnchorLost as ex:
         ctx.rule("R1x", "anchors of r1").fail("anchor-lost", str(ex))
-    for fn in ((lambda c, f: r2(c, f, add)) if add else None, r3, r4, r5, r6):
+    for fn in ((lambda c, f: r2(c, f, add)) if add else None, r3, r4, r5, r6, r7):
         if fn is None:
             continue
         try:
